@@ -11,6 +11,7 @@ import (
 	"io"
 	"math"
 	"net/http"
+	"os"
 	"reflect"
 	"sort"
 	"strings"
@@ -113,6 +114,9 @@ func verdict(err error) string {
 		}
 	}
 	walk(err)
+	if os.Getenv("ZZSIM_DEBUG_VERDICT") != "" {
+		fmt.Fprintf(os.Stderr, "verdict detail: %v\n", err)
+	}
 	var parts []string
 	for k := range set {
 		parts = append(parts, k)
